@@ -252,7 +252,7 @@ def coq_obligations(prop, timeout=1500):
 # recursive re-check (project cone + every library it depends on).
 COQCHK_SKIP = {
     "C01": ["DV.RpuRTExample"],
-    "C03": ["DV.RpuRTExample", "DV.DmWSExample"],
+    "C03": ["DV.RpuRTExample", "DV.DmWSExample", "DV.RpuWSExample"],
     "C19": ["DVgen.PqCertAll"] + ["DVgen.PqCert_%02d" % i for i in range(64)],
 }
 
